@@ -264,6 +264,9 @@ pub enum Src {
   Create(Vec<NoteSpec>),
   Of(i64),
   OfFn(i64),
+  /// `create` whose producer asks its subscriber `is_finished()` before every
+  /// item (each item produced counts as a pull), then completes
+  CreatePolling(usize),
   /// `from_iter` over a collection whose `IntoIterator::into_iter` is counted
   /// (as a source closure call): it must run at subscription, once each
   IntoIter(Vec<i64>),
@@ -834,6 +837,20 @@ macro_rules! build_fns {
           })
           .box_it()
         }
+        Src::CreatePolling(n) => {
+          let (n, pulls) = (*n, c.pulls.clone());
+          observable::create(move |mut sub: $Subscriber<_>| {
+            for i in 0..n as i64 {
+              if sub.is_finished() {
+                break;
+              }
+              pulls.fetch_add(1, Ordering::SeqCst);
+              sub.next(V::I(i));
+            }
+            sub.complete();
+          })
+          .box_it()
+        }
         Src::Of(n) => observable::of(V::I(*n)).on_error_map(inf::<E>).box_it(),
         Src::IntoIter(items) => {
           let coll = CountingColl { items: items.iter().map(|n| V::I(*n)).collect(), calls: c.src_calls.clone() };
@@ -1211,11 +1228,18 @@ macro_rules! build_fns {
 /// instant `off` ticks from (real) now; negative = in the past
 pub fn instant_at(off: i64) -> Instant {
   let now = Instant::now();
-  if off >= 0 {
+  let at = if off >= 0 {
     now + ticks(off as u64)
   } else {
     now.checked_sub(ticks((-off) as u64)).unwrap_or(now)
-  }
+  };
+  INSTANTS.with(|l| l.borrow_mut().push(at));
+  at
+}
+
+thread_local! {
+  /// every instant handed to an `_at` form by this thread's builders, in order
+  pub static INSTANTS: std::cell::RefCell<Vec<Instant>> = std::cell::RefCell::new(vec![]);
 }
 
 impl Cx {
